@@ -26,10 +26,52 @@ def run(ctx):
     for (seed, label, parent, group, pt) in cases:
         args = "%s %s %s %s %s" % (seed.hex(), label.encode().hex(), parent.hex(), group.hex(), pt.hex() or "-")
         lines += ["frame " + args, "sweep " + args]
+    # APQ topic keys: (seed, version, topic, plaintext)
+    tcases = []
+    for _ in range(n):
+        tcases.append((bytes(r.below(256) for _ in range(8)),
+                       r.choice([0, 1, 2, 255, 256, 65535, 0x01020304, 0x7FFFFFFF, 0xFFFFFFFF, r.below(1 << 32)]),
+                       bytes(r.below(256) for _ in range(16)),
+                       bytes(r.below(256) for _ in range(r.choice([0, 1, 5, 16, 33, 64])))))
+    nbase = len(lines)
+    for (seed, ver, topic, pt) in tcases:
+        args = "%s %d %s %s" % (seed.hex(), ver, topic.hex(), pt.hex() or "-")
+        lines += ["tframe " + args, "tsweep " + args]
     ol = cc.run_lines(ctx, binp, lines)
     if ol is None:
         return
     gk_items, hp_items, bad, nmut, kinds = [], [], [], 0, {}
+    tm_items, tr_items = [], []
+    for j, (seed, ver, topic, pt) in enumerate(tcases):
+        li = nbase + 2 * j
+        parts = ol[li].split(" || ")
+        kv = dict(x.split("=") for x in parts[0].split())
+        oids = [cc.unhex(x) for x in kv["oids"].split(",")]
+        if kv["back"] != (pt.hex() or "-") or kv["same"] != "true":
+            bad.append((li // 2, "tframe", "topic key round trip did not return the plaintext / topic key"))
+        l0, l1, l2 = cc.parse_log(parts[1]), cc.parse_log(parts[2]), cc.parse_log(parts[3])
+        th = [(e[1], e[2]) for e in l1 + l2 if e[0] == "H"]
+        tx = [(e[2], e[3]) for e in l0 if e[0] == "X"]
+        te = [(e[1] + e[2], e[3]) for e in l0 if e[0] == "E"]
+        K1, S1 = [e for e in l1 if e[0] == "K"], [e for e in l1 if e[0] == "S"]
+        K2, O2 = [e for e in l2 if e[0] == "K"], [e for e in l2 if e[0] == "O"]
+        tseed = tx[0][0][-64:] if tx else b""
+        if K1 and S1 and K2 and O2:
+            tm_items.append((li // 2, oids, ver, topic, cc.unhex(kv["enc_id"]), cc.unhex(kv["sign_id"]), tseed, pt, cc.unhex(kv["sealed"]),
+                             th, tx, te, (K1[-1][1], S1[-1][1], S1[-1][2], S1[-1][3], S1[-1][5], S1[-1][6]),
+                             (K2[-1][1], O2[-1][1], O2[-1][2], O2[-1][3], O2[-1][6], O2[-1][4])))
+        else:
+            bad.append((li // 2, "tframe", "no AEAD call logged for TopicKey::seal_message / open_message"))
+        for part, is_open in ((4, False), (5, True)):
+            lg = cc.parse_log(parts[part])
+            ikms = [e[2] for e in lg if e[0] == "X"]
+            ads = [e[2] for e in lg if e[0] in ("S", "O")]
+            tr_items.append((li // 2, oids, ver, topic, ikms, ads[0] if ads else b"", is_open))
+        sw = dict(x.split("=", 1) for x in ol[li + 1].split())
+        m, k = cc.sweep_oracle(sw, {"tm.base": "ok", "tr.base": "ok"}, bad, li // 2)
+        nmut += m
+        for a, b in k.items():
+            kinds[a] = kinds.get(a, 0) + b
     for i, (seed, label, parent, group, pt) in enumerate(cases):
         parts = ol[2 * i].split(" || ")
         kv = dict(x.split("=") for x in parts[0].split())
@@ -74,29 +116,45 @@ def run(ctx):
         its = ["(%s, %s, %s, %s, %d)" % (vlib.coq_list([H(x) for x in oids]), H(group), vlib.coq_list([H(x) for x in ikms]), H(ad), which)
                for (_, oids, group, ikms, ad, which) in chunk]
         return "Definition cases : list c37_hpke_case := %s.\nEval vm_compute in (mismatches c37_hpke_chk cases).\n" % vlib.coq_list(its)
+    def render_tm(chunk):
+        its = []
+        for (_, oids, ver, topic, enc_id, sign_id, tseed, pt, sealed, th, tx, te, k, o) in chunk:
+            its.append("(%s, %d, %s, %s, %s, %s, %s, %s, %s, %s, %s, (%s), (%s))" % (
+                vlib.coq_list([H(x) for x in oids]), ver, H(topic), H(enc_id), H(sign_id), H(tseed), H(pt), H(sealed), tabs(th), tabs(tx), tabs(te),
+                ", ".join(H(x) for x in k), ", ".join(H(x) for x in o)))
+        return "Definition cases : list c37_tmsg_case := %s.\nEval vm_compute in (mismatches c37_tmsg_chk cases).\n" % vlib.coq_list(its)
+
+    def render_tr(chunk):
+        its = ["(%s, %d, %s, %s, %s, %s)" % (vlib.coq_list([H(x) for x in oids]), ver, H(topic), vlib.coq_list([H(x) for x in ikms]), H(ad),
+                                             "true" if is_open else "false") for (_, oids, ver, topic, ikms, ad, is_open) in chunk]
+        return "Definition cases : list c37_trot_case := %s.\nEval vm_compute in (mismatches c37_trot_chk cases).\n" % vlib.coq_list(its)
     m1 = cc.eval_mismatches(ctx, "c37_gk", gk_items, render_gk, shard=40)
     m2 = cc.eval_mismatches(ctx, "c37_hp", hp_items, render_hp, shard=80)
-    if m1 is None or m2 is None:
+    m3 = cc.eval_mismatches(ctx, "c37_tm", tm_items, render_tm, shard=40)
+    m4 = cc.eval_mismatches(ctx, "c37_tr", tr_items, render_tr, shard=80)
+    if m1 is None or m2 is None or m3 is None or m4 is None:
         return
     ctx.coverage.update({
-        "traces_validated_against_impl": len(gk_items) + len(hp_items),
-        "evaluations": nmut + 3 * len(cases),
+        "traces_validated_against_impl": len(gk_items) + len(hp_items) + len(tm_items) + len(tr_items),
+        "evaluations": nmut + 3 * len(cases) + 2 * len(tcases),
         "distinct_nontrivial": len({(c[1], c[2], c[3], c[4]) for c in cases if c[4]}),
         "rule": "case = (seed, label, parent id, group id, plaintext); `frame` runs GroupKey::seal/open, seal_group_key/open_group_key and "
                 "seal_psk_seed/open_psk_seed with the recording suite: the context hash input, the KDF extract/expand inputs, the AEAD key/nonce/AD "
                 "and the sealed bytes must equal the model's chain, and the HPKE info (info struct + suite OIDs) must be what the key schedule "
                 "extracted and the AEAD's AD; `sweep` (default suite) changes every context component (label, parent byte-wise, author key, group "
                 "byte-wise, recipient, sender), every ciphertext byte and the encapsulation; non-trivial = non-empty plaintext",
-        "distribution": {"cases": len(cases), "mutations_checked": nmut, "mutations_by_kind": kinds,
+        "distribution": {"cases": len(cases), "topic_key_cases": len(tcases), "topic_versions": sorted({c[1] for c in tcases}), "mutations_checked": nmut, "mutations_by_kind": kinds,
                          "plaintext_lengths": sorted({len(c[4]) for c in cases})},
         "samples": [{"case": lines[2 * i]} for i in range(2)],
     })
     ctx.assumptions += ["hash collision-free; KDF, AEAD, HPKE key schedule and DH are ideal (free-constructor) primitives (ideal_aead, ideal_hpke, ideal_ctx_aead)",
-                        "topic keys (apq.rs) are covered by the generated call-site inventory only, not by seal_open_context"]
+                        "topic keys: version is 4 bytes, topic 16 bytes (fixed by the types)"]
     for (i, label, why) in bad[:3]:
         ctx.violation("context binding broken: " + why,
-                      {"case": lines[2 * i + 1], "mutation": label, "contradicts": "seal_open_context (coq/props/C37.v)",
+                      {"case": lines[2 * i + 1], "mutation": label, "contradicts": "seal_open_context / topic_seal_open_context (coq/props/C37.v)",
                        "replay_cmd": "echo '%s' | %s   # look at `%s=`" % (lines[2 * i + 1], binp, label)})
     ctx.oblige("correspondence:groupkey-chain=model", not m1, "cases %s, first: %s" % (m1[:5], lines[2 * gk_items[m1[0]][0]] if m1 else ""))
     ctx.oblige("correspondence:hpke-info=model", not m2, "items %s, first: %s" % (m2[:5], lines[2 * hp_items[m2[0]][0]] if m2 else ""))
+    ctx.oblige("correspondence:topic-message-chain=model", not m3, "items %s, first: %s" % (m3[:5], lines[2 * tm_items[m3[0]][0]] if m3 else ""))
+    ctx.oblige("correspondence:topic-key-hpke-info=model", not m4, "items %s, first: %s" % (m4[:5], lines[2 * tr_items[m4[0]][0]] if m4 else ""))
     ctx.oblige("oracle:mutations-fail", not bad, str(bad[:3]))
